@@ -108,13 +108,18 @@ class Highlighter(object):
 
             if lineno > current_line:
                 diff = lineno - current_line
-                if diff > 1:
-                    lines += [""] * (diff - 1)
 
-                line += styled(current_type, buffer.rstrip("\n"))
+                if current_type is not None:
+                    line += styled(current_type, buffer.rstrip("\n"))
 
                 # New line
                 lines.append(line)
+
+                # Lines without any token (a lone continuation backslash)
+                # come after the line that was being assembled
+                if diff > 1:
+                    lines += [""] * (diff - 1)
+
                 line = ""
                 current_line = lineno
                 current_col = 0
